@@ -11,7 +11,7 @@
    property; retained_untouched = the retained file's node and inode are unchanged; restored = the
    original path is back (exactly; for RefLink: what an observer reads at the path is the same — the path
    may be served by the backup clone) and no temp file is left. *)
-From FV Require Import Base FsModel AtomicModel AtomicProofs AtomicProofs2 AtomicProofs3 AtomicProofs4.
+From FV Require Import Base FsModel AtomicModel AtomicProofs AtomicProofs2 AtomicProofs3 AtomicProofs4 TempNameModel TempNameProofs.
 Open Scope N_scope.
 
 (* Every state a crash (SIGKILL) can expose — before / after every call and inside std::fs::copy. *)
@@ -104,3 +104,35 @@ Proof. vm_compute. repeat split; reflexivity. Qed.
 Example C05_move_copy_states :
   length (states nofault 0 (prog_of false (FMove ex_a ex_tgt false (-3))) ex_s) = 10%nat.
 Proof. vm_compute. reflexivity. Qed.
+
+(* ---- the temporary name itself (dedupe.rs FsCommand::temp_file; names are byte lists).  The theorems above take "a fresh
+   sibling name" as an operand; these say that the name the code builds exists as a name at all: it fits into NAME_MAX for
+   EVERY victim name (since fix d75e85d: a name longer than 230 bytes is shortened first), starts with a prefix of the victim's
+   name, is <name>.<suffix> unchanged for names of at most 230 bytes, and the cut never splits a UTF-8 sequence. ---- *)
+Theorem C05_temp_name_fits :
+  forall name sfx, length sfx = 24%nat -> (length (temp_name name sfx) <= 255)%nat.
+Proof. exact temp_name_fits. Qed.
+Print Assumptions C05_temp_name_fits.
+
+Theorem C05_temp_name_prefix_of_victim :
+  forall name, exists r, name = temp_stem name ++ r.
+Proof. exact temp_stem_prefix. Qed.
+Print Assumptions C05_temp_name_prefix_of_victim.
+
+Theorem C05_temp_name_short_unchanged :
+  forall name sfx, (length name <= 230)%nat -> temp_name name sfx = name ++ 46%N :: sfx.
+Proof. exact temp_name_short. Qed.
+Print Assumptions C05_temp_name_short_unchanged.
+
+Theorem C05_temp_name_cut_at_char_boundary :
+  forall name, (max_stem < length name)%nat ->
+    temp_stem name = [] \/ is_cont (nth (length (temp_stem name)) name 0%N) = false.
+Proof. exact temp_stem_boundary. Qed.
+Print Assumptions C05_temp_name_cut_at_char_boundary.
+
+Example C05_temp_name_inhabited :
+  length long_name = 240%nat /\ temp_stem long_name = repeat 97%N 229 /\
+  temp_stem (repeat 97%N 255) = repeat 97%N 230 /\ temp_stem (repeat 97%N 230) = repeat 97%N 230 /\
+  length (temp_name long_name (repeat 65%N 24)) = 254%nat.
+Proof. exact temp_stem_example. Qed.
+
